@@ -23,7 +23,13 @@ MANIFEST = {
             "CMRxReconDataset with num_slices = a*b | a | b, FakeMRIBlobsDataset with nz slices per generated volume) are contiguous "
             "from 0, ordered, and cover 0..len-1 exactly once; for the H5 / CMRx constructors this holds with no hypothesis on the "
             "arguments (selection = filenames_filter > filenames_lists > sorted directory listing, de-duplicated keeping the "
-            "first, then regex: select_nodup, build_ranges_partition, cmr_build_ranges_partition, build_is_parse), for the bare "
+            "first, then regex: select_nodup, build_ranges_partition, cmr_build_ranges_partition, build_is_parse; the de-duplication "
+            "is stated over the entries as given seen through a normalisation `norm` = pathlib.Path(_): entries equal after "
+            "normalisation (str vs Path, redundant separators, `./`, trailing separator) are merged into one volume, first kept "
+            "(dedup_merges_normalisation_equal, select_raw_nodup, build_raw_ranges_contiguous; a seen-set over the raw entries has "
+            "the witness dedup_on_raw_entries_violates); entries that stay different Path objects (relative vs absolute, a `..` "
+            "component, a symlinked directory, the same name in another directory) are volumes of their own even when they "
+            "resolve to the same file — the ranges still partition 0..len-1), for the bare "
             "fold and for explicitly named fake volumes under distinct names (generated names are proved distinct); "
             "data[start_k + r] is the r-th smallest admissible slice of the k-th readable file (iff), "
             "len(range(*slice.indices(n))) equals the number of admitted slices; CMRx 2-D index s <-> (s // b, s % b) is a "
@@ -65,8 +71,9 @@ TRUSTED = [
     "blobs n_samples, slices per fake volume; structural tables of parse_filenames_data / get_slice_data / file selection / "
     "subclass forwarding / CMRxRecon / ConcatDataset / FakeMRIBlobsDataset index structure / SheppLoganDataset item / make_blobs "
     "call / no instance or shared state written / call sites / build_dataset_from_input; seed-plumbing tables)",
-    "Python list indexing, dict insertion order: hand-modelled, validated by correspondence; re.match results, Path ordering and the "
-    "OS directory listing order are inputs of the model (computed by the harness with the same library calls)",
+    "Python list indexing, dict insertion order: hand-modelled, validated by correspondence; re.match results, Path ordering, the "
+    "OS directory listing order and which spellings are equal as pathlib.Path objects (`norm`) are inputs of the model (computed "
+    "by the harness with the same library calls; every filter entry is passed as form code + normalised id)",
     "bisect.bisect_right, slice.indices, len(range)/list(range), list(dict.fromkeys): executable model definitions compared "
     "directly with the library on every run (bisect_right also on unsorted lists) — no longer assumed by any theorem",
     "h5py: file[key][a:b] returns slices a..b-1; numpy concatenate/zeros/swapaxes index semantics",
@@ -82,11 +89,16 @@ ASSUMPTIONS = [
     "build_is_parse), FakeMRIBlobsDataset guarantees it for the names it generates (fake_renamed_names_nodup); names given "
     "explicitly to FakeMRIBlobsDataset are the caller's",
     "h5 files are not modified between construction and access",
+    "two different pathlib.Path objects are two volumes, also when they resolve to the same file on disk (symlink, relative vs "
+    "absolute, `..`): the code compares Path objects lexically and never resolves them — the partition property holds for them, "
+    "the data of the file is then in the dataset twice (by the caller's choice)",
     "`render` (blob image, sensitivity maps, FFT) is a deterministic function of the drawn values — checked bit-for-bit on "
     "the implementation by the oracle (reload, twin, copies, workers), not proved",
 ]
 RULE = ("h5 pools: files with 1..9 slices, content value = 1000*file + slice; datasets = ordered selections of 0..6 pool files "
-        "(incl. unreadable / missing / repeated ones) given as filenames_filter, .lst lists, or a directory listing (hard links "
+        "(incl. unreadable / missing / repeated ones) given as filenames_filter (entries mixed within one filter as str / Path, with "
+        "`//`, `/./`, `./` prefix, trailing `/`, relative to the working directory, through a symlinked directory, with a `..` "
+        "component, or the same name in the companion directory), .lst lists (incl. `./` and `../main/` lines), or a directory listing (hard links "
         "created in shuffled order) with optional regex_filter; classes H5SliceData / FastMRIDataset / CalgaryCampinasDataset "
         "(crop 50:-50 on 1..104-slice files) / CMRxReconDataset (contexts None/slice/time on (a, b) in 1..3 x 1..4; listing / "
         "filter / lists); filters = None / slice objects with None/negative/out-of-range bounds and steps ±1..±5 / malformed "
